@@ -41,7 +41,7 @@ Proof.
   intros lb. unfold cand_contract, cand_scan. repeat split.
   - intros q. apply sel_nodup. apply seq_NoDup.
   - intros q l H. apply sel_in in H. apply in_seq in H. lia.
-  - intros q l Hl Ho. apply in_map_iff. exists (l, nth l lb nanbox). split; [reflexivity|].
+  - intros q l _ Hl Ho. apply in_map_iff. exists (l, nth l lb nanbox). split; [reflexivity|].
     apply filter_In. split.
     + apply (combine_seq_nth _ lb nanbox 0 l Hl).
     + cbn [snd]. rewrite Ho. reflexivity.
